@@ -227,6 +227,18 @@ func init() {
 				}
 				return
 			}
+			var fl struct {
+				InFlight bool `json:"close_during_stalled_delivery"`
+				Cached   bool `json:"cached"`
+				Shape    int  `json:"shape"`
+			}
+			if json.Unmarshal(ctx.Replay, &fl) == nil && fl.InFlight {
+				ctx.Case(fl, "", "close-during-stalled-delivery", "")
+				if f := c07InFlight(fl.Cached, fl.Shape); f != "" {
+					ctx.Fail("recorded_before_close_is_delivered_once_and_live_scopes_stay", f, fl, nil)
+				}
+				return
+			}
 			var c regCase
 			if err := json.Unmarshal(ctx.Replay, &c); err != nil {
 				fatal(err)
@@ -281,6 +293,14 @@ func init() {
 			ctx.Case(cs, "", "close-does-not-affect-other-scopes", "")
 			if f := c07Others(k%2 == 1, k%4 < 2, k/4); f != "" {
 				ctx.Fail("closing_a_scope_never_affects_another", f, cs, nil)
+			}
+		}
+		// record + Close while a pass is stalled inside the delivery of that very scope
+		for k := 0; k < 6; k++ {
+			cs := map[string]interface{}{"close_during_stalled_delivery": true, "cached": k%2 == 1, "shape": k / 2}
+			ctx.Case(cs, "", "close-during-stalled-delivery", "")
+			if f := c07InFlight(k%2 == 1, k/2); f != "" {
+				ctx.Fail("recorded_before_close_is_delivered_once_and_live_scopes_stay", f, cs, nil)
 			}
 		}
 		// Close called on one subscope by several goroutines at the same moment (uncontrolled)
